@@ -513,7 +513,7 @@ class FiniteBifield:
         """
         # For our implementation, the element 'x' (represented by value 2 or 0b10)
         # is primitive when using the standard primitive polynomials
-        return self(0b10)
+        return self((BinaryPolynomial(0b10) % self.modulus).value)
 
     def get_all_elements(self) -> List["FiniteBifieldElement"]:
         """Get all elements of the field.
